@@ -26,7 +26,7 @@ TECHNIQUE = (
 )
 RULE = (
     "case = header SpecId Label ScanNr f1..fN Peptide with the Proteins column last or at a drawn position (N 0-8), "
-    "1-12 PSM rows of non-empty blank-free tokens, 1-5 proteins per row, default or custom protein separator, optional DefaultDirection second line with a "
+    "1-12 PSM rows of non-empty blank-free tokens (one case in 16 cycles them up to a row count at or next to 64..10000, powers of two included), 1-5 proteins per row, default or custom protein separator, optional DefaultDirection second line with a "
     "drawn field count, with/without final newline. Non-trivial: some row has >=2 proteins and (the Proteins column is "
     "not last or a DefaultDirection line is present or the final newline is missing). Distinct = distinct canonical JSON."
 )
@@ -63,7 +63,13 @@ def _case(draw, tier):
     if draw(st.integers(0, 3)) == 0:
         ndd = draw(st.sampled_from([len(base) + 1, len(base) + 1, 2, len(base) + 3, 1]))
         dd = ["DefaultDirection"] + draw(st.lists(token, min_size=ndd - 1, max_size=ndd - 1))
-    return {"kind": "pin", "base": base, "pos": pos, "rows": rows, "dd": dd, "final_newline": draw(st.booleans()),
+    # long files: the drawn rows are cycled up to a row count at or next to a typical buffer size
+    big = None
+    if draw(st.integers(0, 15)) == 0:
+        b = draw(st.sampled_from([64, 100, 128, 256, 500, 512, 1000, 1024, 2048, 4096, 5000, 8192, 10000] if tier != "quick"
+                                 else [64, 100, 128, 256, 512, 1000, 1024, 2048, 4096, 4096, 8192]))
+        big = b + draw(st.sampled_from([0, 0, -1, 1]))
+    return {"kind": "pin", "base": base, "pos": pos, "rows": rows, "dd": dd, "final_newline": draw(st.booleans()), "big": big,
             "sep_protein": draw(st.sampled_from([":", ":", ";", "|", ","])),
             "sep_column": draw(st.sampled_from(["\t", "\t", "\t", "\x1f"]))}
 
@@ -81,6 +87,13 @@ def render(case):
     return text, exp
 
 
+def all_rows(case):
+    rows = case["rows"]
+    if case.get("big") and rows:
+        rows = [rows[i % len(rows)] for i in range(case["big"])]
+    return rows
+
+
 def _render_tab(case):
     base, pos = case["base"], case["pos"]
     header = base[:pos] + ["Proteins"] + base[pos:]
@@ -88,7 +101,7 @@ def _render_tab(case):
     if case["dd"]:
         lines.append("\t".join(case["dd"]))
     exp = ["\t".join(header)]
-    for r in case["rows"]:
+    for r in all_rows(case):
         f = r["fields"]
         lines.append("\t".join(f[:pos] + r["proteins"] + f[pos:]))
         exp.append("\t".join(f[:pos] + [case.get("sep_protein", ":").join(r["proteins"])] + f[pos:]))
@@ -127,7 +140,7 @@ def check(case):
     got = out.getvalue()
     require(got.endswith("\n") or not got, "no-final-newline", "output does not end with a newline")
     glines = got.split("\n")[:-1]
-    require(len(glines) == len(exp), "line-count", f"{len(glines)} output lines for header + {len(case['rows'])} PSMs (DefaultDirection={bool(case['dd'])})")
+    require(len(glines) == len(exp), "line-count", f"{len(glines)} output lines for header + {len(all_rows(case))} PSMs (DefaultDirection={bool(case['dd'])})")
     require(glines[0] == exp[0], "header-changed", f"{glines[0]!r} != {exp[0]!r}")
     for i, (g, e) in enumerate(zip(glines[1:], exp[1:])):
         require(g == e, "row-changed", f"PSM {i}: {g!r} != expected {e!r}")
@@ -155,8 +168,12 @@ def check(case):
         classes.append("custom-protein-separator")
     if scol != "\t":
         classes.append("custom-column-separator")
+    if case.get("big"):
+        classes.append("long-file")
+        if case["big"] & (case["big"] - 1) == 0:
+            classes.append("row-count-power-of-two")
     nontrivial = multi and (case["pos"] != len(case["base"]) or bool(case["dd"]) or not case["final_newline"])
-    return {"nontrivial": nontrivial, "classes": classes, "counters": {"rows_checked": len(case["rows"])}}
+    return {"nontrivial": nontrivial, "classes": classes, "counters": {"rows_checked": len(all_rows(case))}}
 
 
 def extra(tier, seed, shard, nshards, stats):
